@@ -27,10 +27,14 @@ var Embeddings = map[string]Embedding{
 	"v4o0":   {Name: "v4o0", V6: false, Offset: 0},
 	"v4o8":   {Name: "v4o8", V6: false, Offset: 8, Stem: [2]uint64{0x0a00000000000000, 0}},
 	"v4o27":  {Name: "v4o27", V6: false, Offset: 27, Stem: [2]uint64{0xc0a8ffe000000000, 0}},
+	"v4o28":  {Name: "v4o28", V6: false, Offset: 28, Stem: [2]uint64{0xc0a8fff000000000, 0}},
 	"v6o0":   {Name: "v6o0", V6: true, Offset: 0},
 	"v6o28":  {Name: "v6o28", V6: true, Offset: 28, Stem: [2]uint64{0x20010db000000000, 0}},
+	"v6o30":  {Name: "v6o30", V6: true, Offset: 30, Stem: [2]uint64{0x20010db800000000, 0}},
 	"v6o60":  {Name: "v6o60", V6: true, Offset: 60, Stem: [2]uint64{0x20010db8aaaa5550, 0}},
+	"v6o62":  {Name: "v6o62", V6: true, Offset: 62, Stem: [2]uint64{0x20010db8aaaa5554, 0}},
 	"v6o123": {Name: "v6o123", V6: true, Offset: 123, Stem: [2]uint64{0x20010db8aaaa5555, 0xffff0000ffff0fe0}},
+	"v6o124": {Name: "v6o124", V6: true, Offset: 124, Stem: [2]uint64{0x20010db8aaaa5555, 0xffff0000ffff0ff0}},
 }
 
 // Pfx maps the abstract prefix (bit string such as "", "0", "01", "0110") to a real prefix.
